@@ -11,6 +11,7 @@ package main
 
 import (
 	"fmt"
+	"go/ast"
 	"go/constant"
 	"go/token"
 	"go/types"
@@ -348,4 +349,53 @@ func checkC14(w *World, r *Report) {
 		})
 	}
 	r.Counts["buffer re-allocations in producing functions"] = nGrow
+	checkNoAliasedHeaders(w, r, "R14.3")
+}
+
+// checkNoAliasedHeaders (R14.3 / R01.7): no string or slice header is manufactured over memory
+// the package keeps writing to.  unsafe.String / unsafe.Slice and the *(*string)(unsafe.Pointer(&b))
+// idiom hand out a value that changes when the underlying (pooled, reset, re-used) buffer is
+// written again: a rendered result would change after it was returned — typically only for
+// results above some size class.  Reading through unsafe.StringData / unsafe.Add is not affected.
+func checkNoAliasedHeaders(w *World, r *Report, rule string) {
+	n := 0
+	for _, fd := range w.sortedDecls() {
+		if fd.Body == nil {
+			continue
+		}
+		fname := w.declName(fd)
+		ast.Inspect(fd.Body, func(nd ast.Node) bool {
+			call, ok := nd.(*ast.CallExpr)
+			if !ok {
+				return true
+			}
+			// unsafe.String / unsafe.Slice
+			if sel, ok := ast.Unparen(call.Fun).(*ast.SelectorExpr); ok {
+				if id, ok := sel.X.(*ast.Ident); ok {
+					if pn, ok := w.Info.Uses[id].(*types.PkgName); ok && pn.Imported().Path() == "unsafe" && (sel.Sel.Name == "String" || sel.Sel.Name == "Slice") {
+						n++
+						r.bad(rule, fname, "unsafe."+sel.Sel.Name, w.pos(call), "a "+strings.ToLower(sel.Sel.Name)+" header is built over existing memory instead of copying it: the value handed out changes when the buffer it points into is reset and written again (results differ by history, usually only above a size threshold)")
+					}
+				}
+				return true
+			}
+			// (*string)(unsafe.Pointer(&x)) / (*[]byte)(unsafe.Pointer(&s))
+			if tv, ok := w.Info.Types[call.Fun]; ok && tv.IsType() && len(call.Args) == 1 {
+				if p, ok := tv.Type.Underlying().(*types.Pointer); ok {
+					isStr := types.Identical(p.Elem().Underlying(), types.Typ[types.String])
+					_, isSl := p.Elem().Underlying().(*types.Slice)
+					if isStr || isSl {
+						if at := w.Info.TypeOf(call.Args[0]); at != nil && types.Identical(at, types.Typ[types.UnsafePointer]) {
+							n++
+							r.bad(rule, fname, "header reinterpretation through unsafe.Pointer", w.pos(call), "a string/slice header is reinterpreted over another value's memory instead of copying: the result aliases a buffer that is written again later")
+						}
+					}
+				}
+			}
+			return true
+		})
+	}
+	if n == 0 {
+		r.ok(rule, "(package)", "no string/slice header is manufactured over live buffer memory", "-", "no unsafe.String, unsafe.Slice or header reinterpretation in the package", false)
+	}
 }
